@@ -77,6 +77,10 @@ MUTANTS += [
 ]
 
 REFACTORS = [
+  dict(id="ref:clear-via-helper", subs=[sub("solver.py", "  d.cJ.zero_()\n", "  _clear_compact_jacobian(d)\n"), sub("solver.py", "def _compact_gather(", "def _clear_compact_jacobian(d: types.Data):\n  d.cJ.zero_()\n\n\ndef _compact_gather(")], silent=["C12", "C38"]),
+  dict(id="ref:counter-zero-order", subs=[sub("collision_driver.py", "  d.ncollision.zero_()\n  if not incremental:\n    d.nacon.zero_()\n", "  if not incremental:\n    d.nacon.zero_()\n  d.ncollision.zero_()\n")], silent=["C16", "C12"]),
+  dict(id="ref:scratch-zeros-like", subs=[sub("set_const.py", "    dof_M0 = wp.zeros((d.nworld, m.nv), dtype=float)", "    dof_M0 = wp.zeros_like(d.qvel)")], silent=["C10", "C33"]),
+  dict(id="ref:inverse-local-flag", subs=[sub("inverse.py", "    if m.opt.disableflags & (DisableBit.EULERDAMP | DisableBit.DAMPER):", "    no_implicit_damping = m.opt.disableflags & (DisableBit.EULERDAMP | DisableBit.DAMPER)\n    if no_implicit_damping:")], silent=["C26"]),
   # verified silent under all 28 checks (tools run 2026-09-22); listed under the properties whose rules look at the construct
   dict(id="ref:rename-local", subs=[sub("smooth.py", "  mat = ximat_in[worldid, bodyid]\n", "  ximat_local = ximat_in[worldid, bodyid]\n  mat = ximat_local\n")], silent=["C01", "C02", "C09", "C11"]),
   dict(id="ref:alias-address", subs=[sub("forward.py", "  qpos_adr = jnt_qposadr[jntid]\n  dof_adr = jnt_dofadr[jntid]\n", "  qpos_address = jnt_qposadr[jntid]\n  qpos_adr = qpos_address\n  dof_adr = jnt_dofadr[jntid]\n")], silent=["C08", "C23", "C11"]),
